@@ -145,7 +145,7 @@ func planC12(tier string, root *simcore.RNG) *plan {
 			}
 		}
 		var faults []Fault
-		faults = append(faults, Fault{Kind: "nodir"}, Fault{Kind: "isdir"}, Fault{Kind: "devfull"}, Fault{Kind: "vanish"}, Fault{Kind: "emfile"}, Fault{Kind: "fifo"})
+		faults = append(faults, Fault{Kind: "nodir"}, Fault{Kind: "isdir"}, Fault{Kind: "devfull"}, Fault{Kind: "vanish"}, Fault{Kind: "emfile"}, Fault{Kind: "fifo"}, Fault{Kind: "symloop"})
 		for _, b := range budgets {
 			faults = append(faults, Fault{Kind: "fsize", Budget: b})
 		}
@@ -267,7 +267,7 @@ func planC12(tier string, root *simcore.RNG) *plan {
 		}
 		sets := []hr{
 			{"msu", model2Names, []int{128, 256, 511, 512, 600, 1024}, []string{"dxf", "svg"}},
-			{"msq", model2Names, []int{128, 256, 512, 1024}, []string{"dxf", "svg"}},
+			{"msq", append([]string{"washer", "grid2d"}, model2Names...), []int{128, 256, 512, 1024}, []string{"dxf", "svg"}},
 			{"dc2", model2Names, []int{100, 200, 400}, []string{"dxf", "svg"}},
 			{"mco", []string{"cube", "csg", "sphere-box"}, []int{64, 100, 128, 200}, []string{"tri", "stl", "3mf"}},
 			{"mcu", []string{"cube", "csg", "sphere-box"}, []int{64, 100, 128}, []string{"tri", "stl", "3mf"}},
@@ -357,6 +357,30 @@ func planC12(tier string, root *simcore.RNG) *plan {
 				}
 				pl.scenarios = append(pl.scenarios, &Scenario{Prop: "C12", Family: "fault", Seed: r.Uint64(), Groups: [][]Job{{j}},
 					Sites: map[string]uint32{"close": 1, "go.start": 1, "worker.start": 1}, Sched: Sched{Policy: pick(r, []string{"fifo", "uniform"}), Seed: r.Uint64()}, Env: genEnv(r), Note: "resolution-sweep", StepCap: 4000000})
+			}
+		}
+	}
+	// part 1k: the tree-walking 2D renderer and the uniform 3D renderer under processor
+	// settings above the number of CPUs (17..20, 33, 65: legal, and what a container
+	// with a wrong quota or an explicit GOMAXPROCS gives), with all automatic hooks on
+	{
+		gmps := []int{17, 18, 19, 20, 33, 65}
+		reps := 2
+		if thorough {
+			reps = 8
+		}
+		for _, gmp := range gmps {
+			for k := 0; k < reps; k++ {
+				r := root.Fork()
+				j := Job{ID: 1, Kind: pick(r, []string{"msq", "msq", "msq", "mcu", "mco"}), Cells: 24 + r.Intn(40)}
+				if j.Kind == "msq" {
+					j.Model, j.Sink = pick(r, []string{"washer", "grid2d", "washer", "grid2d", "poly", "gear-ish"}), pick(r, []string{"dxf", "svg"})
+				} else {
+					j.Model, j.Sink, j.Cells = pick(r, []string{"sphere-box", "csg", "cube"}), pick(r, []string{"tri", "stl"}), 10+r.Intn(8)
+				}
+				pl.scenarios = append(pl.scenarios, &Scenario{Prop: "C12", Family: "fault", Seed: r.Uint64(), Groups: [][]Job{{j}},
+					Sites: map[string]uint32{"close": 1, "go.start": 1, "worker.start": 1, "auto": 1}, Sched: Sched{Policy: pick(r, []string{"uniform", "lifo", "burst"}), Seed: r.Uint64()},
+					Env: Env{GOMAXPROCS: gmp, CPUs: 16}, Note: "resolution-sweep", StepCap: 4000000})
 			}
 		}
 	}
@@ -525,7 +549,7 @@ func planC12(tier string, root *simcore.RNG) *plan {
 	}
 	histories += mixed
 	pl.extra = map[string]any{"fault_points_enumerated": faultPoints, "render_histories": histories}
-	pl.rule = "part 1: for every render-to-file entry (ToSTL/To3MF/ToDXF/ToSVG) x renderer (scripted; uniform and octree marching cubes; uniform/quadtree marching squares; 2D dual contouring) x fault (create fails: missing directory, path is a directory; /dev/full; the file is unlinked right after it was created; the process is out of file descriptors (EMFILE); the path is a named pipe with a reader (writes succeed, seek and truncate do not), also with a reader that is busy for 12..35 s of real time so that every write stalls; a failed flush followed by a renderer that pauses 7..31 s of real time and then goes on producing; RLIMIT_FSIZE budget n for every 4096-byte flush index +-1 byte, the header offsets 0/1/83/84/85, size-1/-84/-85, and the unreached control budget; thorough adds every byte offset for small files) x schedule (fifo, uniform, starve(consumer), starve(renderer)); oracle = the call returns (simulator deadlock verdict otherwise). part 2: histories that repeat a block of renders (all sinks and renderer families, failing renders included; or one renderer kind at alternating coarse and fine resolutions) R>=4 times; oracle = goroutine count at quiescence after repetition R <= after repetition 2. Non-trivial = the injected fault actually fired (or, for census episodes, a uniform render ran); distinct = (entry, fault kind, budget, policy)."
+	pl.rule = "part 1: for every render-to-file entry (ToSTL/To3MF/ToDXF/ToSVG) x renderer (scripted; uniform and octree marching cubes; uniform/quadtree marching squares; 2D dual contouring) x fault (create fails: missing directory, path is a directory, path is a symbolic link to itself or one of a pair pointing at each other; /dev/full; the file is unlinked right after it was created; the process is out of file descriptors (EMFILE); the path is a named pipe with a reader (writes succeed, seek and truncate do not), also with a reader that is busy for 12..35 s of real time so that every write stalls; a failed flush followed by a renderer that pauses 7..31 s of real time and then goes on producing; RLIMIT_FSIZE budget n for every 4096-byte flush index +-1 byte, the header offsets 0/1/83/84/85, size-1/-84/-85, and the unreached control budget; thorough adds every byte offset for small files) x schedule (fifo, uniform, starve(consumer), starve(renderer)); oracle = the call returns (simulator deadlock verdict otherwise). part 2: histories that repeat a block of renders (all sinks and renderer families, failing renders included; or one renderer kind at alternating coarse and fine resolutions) R>=4 times; oracle = goroutine count at quiescence after repetition R <= after repetition 2. Non-trivial = the injected fault actually fired (or, for census episodes, a uniform render ran); distinct = (entry, fault kind, budget, policy)."
 	pl.nontriv = func(o *runOut) (bool, string) {
 		if o.res == nil {
 			return false, ""
